@@ -362,6 +362,12 @@ func cmdCheck(args []string) {
 			switch {
 			case reproduced:
 				violations = append(violations, fmt.Sprintf("VIOLATION property=%s replay=%s", *prop, replayPath))
+			case strings.Contains(o.Cond, "specerr!") || strings.Contains(o.PC, "specerr!"):
+				// this clause no longer resolves against the code (a local it names was renamed or removed): what the generator
+				// made of it is not the intended obligation, so a failure here decides nothing (obligations of the function's
+				// other clauses are judged as usual). The
+				// specification error itself is reported as a TOOL ERROR and the check exits 2 (inconclusive), not 1.
+				newUndecided = append(newUndecided, fmt.Sprintf("UNDECIDED %s [%s] (the contract of %s does not resolve against the current code)", o.name, o.Status, ukey))
 			case inLedger || !haveLedger:
 				violations = append(violations, fmt.Sprintf("VIOLATION property=%s replay=%s no-failing-input-found", *prop, replayPath))
 			default:
